@@ -96,14 +96,14 @@ class PanelCtx:
 
     def _sin(self, t):
         if isinstance(t, AngleTok) and t.unit == 'rad':
-            return self.sina
+            return self.sina if t.name == 'alpha' else self.V('sin_' + t.name)     # another (e.g. an earlier) angle: its own atoms
         if isinstance(t, (int, float)) and t == 0:
             return 0
         raise TypeError('sin() of %r' % (t,))
 
     def _cos(self, t):
         if isinstance(t, AngleTok) and t.unit == 'rad':
-            return self.cosa
+            return self.cosa if t.name == 'alpha' else self.V('cos_' + t.name)
         if isinstance(t, (int, float)) and t == 0:
             return 1
         raise TypeError('cos() of %r' % (t,))
